@@ -47,6 +47,7 @@ def structures(tier):
         if tier == 'thorough' or sweep.weight({'name': n}) == 1:
             sts.append({'name': n, 'kind': 'history'})
         sts.append({'name': n, 'lookups': 0})
+        sts.append({'name': n, 'lookups': 0, 'pre': True})       # the parser tables in an arbitrary state
         if tier == 'thorough':
             sts.append({'name': n, 'lookups': 1, 'len': 5})
     # a call that stays open while the thread logs thousands of unrelated records (disk I/O inside a long read)
@@ -155,7 +156,10 @@ def run(ctx, st):
         for i in range(st['len']):
             ctx.assume(And(text[i] != 0, text[i] < 0x80, text[i] != 0x22, text[i] != 0x5c))
         lookups = [(text, ctx.int('vnode'))]
-    o1 = sweep.run_window(ctx, name, a, r, lookups)
+    if st.get('pre'):
+        o1 = sweep.with_prestate(ctx, lambda tabs: sweep.run_window(ctx, name, a, r, lookups, tables=tabs))
+    else:
+        o1 = sweep.run_window(ctx, name, a, r, lookups)
     if o1.kind != 'text':
         ctx.reach('outcome:' + o1.kind)
         ctx.reach()
@@ -210,6 +214,9 @@ def run(ctx, st):
                 rend = {s for x in allowed for f in _cforms(x) for s in (str(f), hex(f))}
                 for lit in _NUM.findall(txt):
                     ctx.check(L + '/success-value-from-return-word', lit in rend, 'result part %r' % txt)
+    if st.get('pre'):
+        ctx.reach()
+        return
     # result part depends only on the END record: another START (same decoder, same END) gives the same result part.
     # The second START shares the words the first run forked on (enum-typed arguments), so that the product
     # does not square the number of paths; the other words are free.
